@@ -16,7 +16,7 @@
    Values of calls are bound once ([TCall] pushes the result; [WRes i] reads it), the rest of the body is pure
    and is flattened to a decision tree by substitution, as in Model/VecExp.v. *)
 From Coq Require Import String.
-From Coq Require Import List Bool Arith ZArith QArith.
+From Coq Require Import List Bool Arith ZArith QArith Qround.
 From ME Require Import Model.Prelude.
 Import ListNotations.
 Open Scope Q_scope.
@@ -41,7 +41,14 @@ Inductive extfn :=
 (* NumPy functions used as primitives (their signatures are fixed in the translator) *)
 | X_np_round | X_np_ravel | X_np_unique | X_np_diff | X_np_abs | X_nd_flatten | X_np_allclose
 | X_np_subtract_outer | X_nd_min | X_np_median
-| X_chord_encode_many.
+| X_chord_encode_many
+(* third group (translator/wrapfuncs2.py): hierarchy.tmeasure / lmeasure / evaluate, the segment structure metrics *)
+| X_hier_validate | X_hier_lca | X_hier_meet | X_hier_gauc | X_hier_round
+| X_hier_bounds | X_hier_align | X_hier_fk_tmeasure | X_hier_fk_lmeasure
+| X_seg_validate_structure | X_util_intervals_to_samples | X_util_index_labels
+| X_seg_contingency | X_seg_ari_core | X_seg_mi_core | X_seg_ami_core | X_seg_nmi_core | X_seg_entropy | X_seg_nce
+| X_np_equal_outer | X_np_logical_and | X_nd_invert | X_nd_sum | X_nd_astype_float | X_nd_dot | X_nd_T | X_nd_shape
+| X_sp_entropy | X_np_log2 | X_np_sqrt | X_np_array_float.
 Local Open Scope string_scope.
 Definition callee_names : list (string * extfn) :=
   [("transcription.validate", X_tr_validate); ("transcription.validate_intervals", X_tr_validate_intervals);
@@ -59,7 +66,21 @@ Definition callee_names : list (string * extfn) :=
    ("util.validate_intervals", X_util_validate_intervals);
    ("np.round", X_np_round); ("np.ravel", X_np_ravel); ("np.unique", X_np_unique); ("np.diff", X_np_diff); ("np.abs", X_np_abs);
    ("ndarray.flatten", X_nd_flatten); ("np.allclose", X_np_allclose); ("np.subtract.outer", X_np_subtract_outer);
-   ("ndarray.min", X_nd_min); ("np.median", X_np_median); ("chord.encode_many", X_chord_encode_many)].
+   ("ndarray.min", X_nd_min); ("np.median", X_np_median); ("chord.encode_many", X_chord_encode_many);
+   (* third group *)
+   ("hierarchy.validate_hier_intervals", X_hier_validate); ("hierarchy._lca", X_hier_lca); ("hierarchy._meet", X_hier_meet);
+   ("hierarchy._gauc", X_hier_gauc); ("hierarchy._round", X_hier_round); ("hierarchy._hierarchy_bounds", X_hier_bounds);
+   ("hierarchy._align_intervals", X_hier_align);
+   ("util.filter_kwargs(hierarchy.tmeasure)", X_hier_fk_tmeasure); ("util.filter_kwargs(hierarchy.lmeasure)", X_hier_fk_lmeasure);
+   ("segment.validate_structure", X_seg_validate_structure); ("util.intervals_to_samples", X_util_intervals_to_samples);
+   ("util.index_labels", X_util_index_labels); ("segment._contingency_matrix", X_seg_contingency);
+   ("segment._adjusted_rand_index", X_seg_ari_core); ("segment._mutual_info_score", X_seg_mi_core);
+   ("segment._adjusted_mutual_info_score", X_seg_ami_core); ("segment._normalized_mutual_info_score", X_seg_nmi_core);
+   ("segment._entropy", X_seg_entropy); ("segment.nce", X_seg_nce);
+   ("np.equal.outer", X_np_equal_outer); ("np.logical_and", X_np_logical_and); ("ndarray.__invert__", X_nd_invert);
+   ("ndarray.sum", X_nd_sum); ("ndarray.astype(float)", X_nd_astype_float); ("ndarray.dot", X_nd_dot); ("ndarray.T", X_nd_T);
+   ("ndarray.shape", X_nd_shape); ("scipy.stats.entropy", X_sp_entropy); ("np.log2", X_np_log2); ("np.sqrt", X_np_sqrt);
+   ("np.array(dtype=float)", X_np_array_float)].
 Local Close Scope string_scope.
 
 Inductive wexp :=
@@ -81,7 +102,15 @@ Inductive wexp :=
 | WEmptyList                                              (* [] (a Python list that will hold [start, end] pairs) *)
 | WAppendPair (l a b : wexp)                              (* the list l after l.append([a, b]) *)
 | WSetLastSnd (l a : wexp)                                (* the list l after l[-1][-1] = a *)
-| WAsArray (a : wexp).                                    (* np.array(l) of a list of pairs *)
+| WAsArray (a : wexp)                                     (* np.array(l) of a list of pairs *)
+(* third group *)
+| WIsNone (a : wexp)                                      (* a is None *)
+| WPyInt (a : wexp)                                       (* int(a) *)
+| WItem (a : wexp) (i : Z)                                (* a[i] on a tuple / list, i an integer literal *)
+| WAdd (a b : wexp) | WMul (a b : wexp)                   (* a + b, a * b on numbers *)
+| WMax (a b : wexp)                                       (* builtin max(a, b) = b if b > a else a *)
+| WEmptyDict                                              (* collections.OrderedDict() *)
+| WDictSet (d : wexp) (k : string) (v : wexp).            (* the dict d after d[k] = v, k a string literal *)
 
 Inductive stmt :=
 | SLet (x : string) (e : wexp)
@@ -156,6 +185,14 @@ Fixpoint subst (en : env) (a : wexp) : wexp :=
   | WSetLastSnd l a => WSetLastSnd (subst en l) (subst en a)
   | WAsArray a => WAsArray (subst en a)
   | WArg _ | WRes _ | WInt _ | WFloat _ | WBool _ | WNoneE | WNan | WEmptyList => a
+  | WIsNone a => WIsNone (subst en a)
+  | WPyInt a => WPyInt (subst en a)
+  | WItem a i => WItem (subst en a) i
+  | WAdd a b => WAdd (subst en a) (subst en b)
+  | WMul a b => WMul (subst en a) (subst en b)
+  | WMax a b => WMax (subst en a) (subst en b)
+  | WEmptyDict => WEmptyDict
+  | WDictSet d k v => WDictSet (subst en d) k (subst en v)
   end.
 Section Flat.
 Variable sigs : list (string * sigt).          (* the signatures read from the source (Gen/WrapFuncs.v) *)
@@ -218,7 +255,12 @@ Inductive wval :=
 | WCol (l : list Q)                  (* an (n,1) float array *)
 | WMat (m : list (list Q))           (* an (n,k) float array, by rows *)
 | WZss (m : list (list Z))           (* an (n,k) int array, by rows (chord bitmaps) *)
-| WStrs (l : list str).              (* a list of strings (chord labels) *)
+| WStrs (l : list str)               (* a list of strings (chord labels) *)
+(* third group *)
+| WNs (l : list nat)                 (* a list / 1-d array of non-negative ints (label indices) *)
+| WNss (m : list (list nat))         (* a matrix of non-negative ints, by rows (LCA / meet matrices, contingency tables) *)
+| WBss (m : list (list bool))        (* a boolean matrix, by rows (agreement matrices) *)
+| WDict (d : list (string * wval)).  (* a dict with string keys, in insertion order *)
 Definition cond := (bool * exn)%type.
 Definition evr := option (wval * list cond).
 Definition ret (v : wval) : evr := Some (v, []).
@@ -229,6 +271,7 @@ Definition w_len (v : wval) : evr :=
   match v with
   | WIvs l => ret (WZ (Z.of_nat (length l))) | WPs l => ret (WZ (Z.of_nat (length l)))
   | WQs l => ret (WZ (Z.of_nat (length l))) | WM l => ret (WZ (Z.of_nat (length l)))
+  | WNs l => ret (WZ (Z.of_nat (length l)))
   | _ => None end.
 Definition w_size (v : wval) : evr :=
   match v with
@@ -236,10 +279,54 @@ Definition w_size (v : wval) : evr :=
   | WIvs l => ret (WZ (2 * Z.of_nat (length l)))
   | _ => None end.
 Definition w_float (v : wval) : evr := match as_q v with Some q => ret (WQ q) | None => None end.
+(* third group: NumPy scalars (np.float64 / np.int64 results, [WX]). Arithmetic in which one operand is a NumPy scalar
+   is NumPy's: no exception, inf / nan instead (no signed zeros arise: every zero divisor met is +0.0) *)
+Definition np_x (v : wval) : option xval :=
+  match v with WZ z => Some (Fin (inject_Z z)) | WQ q => Some (Fin q) | WX x => Some x | _ => None end.
+Definition x_div (a b : xval) : xval :=
+  match a, b with
+  | NaN, _ | _, NaN => NaN
+  | Fin x, Fin y => xdiv x y
+  | Fin _, PInf | Fin _, NInf => Fin 0
+  | PInf, Fin y => if qltb y 0 then NInf else PInf
+  | NInf, Fin y => if qltb y 0 then PInf else NInf
+  | _, _ => NaN
+  end.
+Definition x_mul (a b : xval) : xval :=
+  match a, b with
+  | NaN, _ | _, NaN => NaN
+  | Fin x, Fin y => Fin (x * y)
+  | Fin x, PInf | PInf, Fin x => if qeqb x 0 then NaN else if qltb 0 x then PInf else NInf
+  | Fin x, NInf | NInf, Fin x => if qeqb x 0 then NaN else if qltb 0 x then NInf else PInf
+  | PInf, PInf | NInf, NInf => PInf
+  | PInf, NInf | NInf, PInf => NInf
+  end.
+Definition x_add (a b : xval) : xval :=
+  match a, b with
+  | NaN, _ | _, NaN => NaN
+  | Fin x, Fin y => Fin (x + y)
+  | PInf, NInf | NInf, PInf => NaN
+  | PInf, _ | _, PInf => PInf
+  | NInf, _ | _, NInf => NInf
+  end.
+Definition x_ltb (a b : xval) : bool :=
+  match a, b with
+  | Fin x, Fin y => qltb x y
+  | NInf, Fin _ | NInf, PInf | Fin _, PInf => true
+  | _, _ => false
+  end.
+Definition x_eqb (a b : xval) : bool :=
+  match a, b with Fin x, Fin y => qeqb x y | PInf, PInf | NInf, NInf => true | _, _ => false end.
 Definition w_div (a b : wval) : evr :=      (* Python numbers: a zero divisor raises *)
   match as_q a, as_q b with
   | Some x, Some y => Some (WQ (x / y), [(negb (qeqb y 0), ZeroDivisionError)])
-  | _, _ => None end.
+  | _, _ => match np_x a, np_x b with                                                                 (* third group *)
+            | Some x, Some y => ret (WX (x_div x y))
+            | _, _ => match a, as_q b with            (* a float matrix by a non-zero number (a zero divisor is outside the fragment) *)
+                      | WMat m, Some y => if qeqb y 0 then None else ret (WMat (map (map (fun x => x / y)) m))
+                      | _, _ => None end
+            end
+  end.
 Definition w_cmp (op : wcmp) (a b : wval) : evr :=
   match a, b with
   | WNone, WNone => match op with WEq => ret (WB true) | WNe => ret (WB false) | _ => None end
@@ -250,7 +337,12 @@ Definition w_cmp (op : wcmp) (a b : wval) : evr :=
   | _, _ => match as_q a, as_q b with
             | Some x, Some y => ret (WB (match op with WEq => qeqb x y | WNe => negb (qeqb x y) | WLt => qltb x y
                                                   | WLe => qleb x y | WGt => qltb y x | WGe => qleb y x end))
-            | _, _ => None end
+            | _, _ => match np_x a, np_x b with          (* third group: a NumPy scalar operand; comparisons with nan are false *)
+                      | Some x, Some y =>
+                          ret (WB (match op with WEq => x_eqb x y | WNe => negb (x_eqb x y) | WLt => x_ltb x y
+                                            | WLe => x_ltb x y || x_eqb x y | WGt => x_ltb y x | WGe => x_ltb y x || x_eqb x y end))
+                      | _, _ => None end
+            end
   end.
 Definition w_trim (v : wval) : evr := match v with WQs l => ret (WQs (removelast (tl l))) | _ => None end.
 Definition w_init (v : wval) : evr := match v with WQs l => ret (WQs (removelast l)) | _ => None end.
@@ -310,6 +402,53 @@ Definition w_set_last_snd (l a : wval) : evr :=
 Definition w_asarray (v : wval) : evr := match v with WIvs l => ret (WIvs l) | _ => None end.
 Definition w_pairs (a b : wval) : evr :=
   match a, b with WQs x, WQs y => ret (WIvs (combine x y)) | _, _ => None end.
+(* ---- third group ---- *)
+Definition w_is_none (v : wval) : evr := ret (WB (match v with WNone => true | _ => false end)).
+(* int(x): truncation toward zero; int(nan) raises ValueError, int(inf) OverflowError *)
+Definition q_trunc (x : Q) : Z := if Qle_bool 0 x then Qfloor x else Qceiling x.
+Definition w_int (v : wval) : evr :=
+  match v with
+  | WZ z => ret (WZ z) | WB b => ret (WZ (if b then 1 else 0)) | WQ q => ret (WZ (q_trunc q))
+  | WX (Fin q) => ret (WZ (q_trunc q))
+  | WX NaN => Some (WZ 0, [(false, ValueError)])
+  | WX _ => Some (WZ 0, [(false, OtherExn)])
+  | _ => None end.
+(* t[i] on a tuple / list, Python indexing *)
+Definition w_item (v : wval) (i : Z) : evr :=
+  match v with
+  | WTup l =>
+      let j := if (i <? 0)%Z then (Z.of_nat (length l) + i)%Z else i in
+      match (if (j <? 0)%Z then None else nth_error l (Z.to_nat j)) with
+      | Some x => ret x
+      | None => Some (WNone, [(false, IndexError)]) end
+  | _ => None end.
+Definition w_add (a b : wval) : evr :=
+  match a, b with
+  | WZ x, WZ y => ret (WZ (x + y))
+  | _, _ => match as_q a, as_q b with
+            | Some x, Some y => ret (WQ (x + y))
+            | _, _ => match np_x a, np_x b with Some x, Some y => ret (WX (x_add x y)) | _, _ => None end
+            end
+  end.
+Definition w_mul (a b : wval) : evr :=
+  match a, b with
+  | WZ x, WZ y => ret (WZ (x * y))
+  | _, _ => match as_q a, as_q b with
+            | Some x, Some y => ret (WQ (x * y))
+            | _, _ => match np_x a, np_x b with Some x, Some y => ret (WX (x_mul x y)) | _, _ => None end
+            end
+  end.
+(* builtin max(a, b): b if b > a else a (a comparison with nan is false) *)
+Definition w_max (a b : wval) : evr :=
+  match np_x a, np_x b with Some x, Some y => ret (if x_ltb x y then b else a) | _, _ => None end.
+(* d[k] = v on a dict: an existing key keeps its position *)
+Fixpoint dict_set (d : list (string * wval)) (k : string) (v : wval) : list (string * wval) :=
+  match d with
+  | [] => [(k, v)]
+  | (k', v') :: t => if String.eqb k k' then (k, v) :: t else (k', v') :: dict_set t k v
+  end.
+Definition w_dict_set (k : string) (d v : wval) : evr :=
+  match d with WDict l => ret (WDict (dict_set l k v)) | _ => None end.
 Definition ebind (a : evr) (f : wval -> evr) : evr :=
   match a with Some (x, ca) => match f x with Some (y, cf) => Some (y, ca ++ cf) | None => None end | None => None end.
 Definition ebind2 (a b : evr) (f : wval -> wval -> evr) : evr :=
@@ -358,6 +497,14 @@ Fixpoint ev (a : wexp) : evr :=
       | _, _, _ => None end
   | WSetLastSnd l a => ebind2 (ev l) (ev a) w_set_last_snd
   | WAsArray a => ebind (ev a) w_asarray
+  | WIsNone a => ebind (ev a) w_is_none
+  | WPyInt a => ebind (ev a) w_int
+  | WItem a i => ebind (ev a) (fun x => w_item x i)
+  | WAdd a b => ebind2 (ev a) (ev b) w_add
+  | WMul a b => ebind2 (ev a) (ev b) w_mul
+  | WMax a b => ebind2 (ev a) (ev b) w_max
+  | WEmptyDict => ret (WDict [])
+  | WDictSet d k v => ebind2 (ev d) (ev v) (w_dict_set k)
   end.
 Fixpoint ev_list (l : list wexp) : option (list wval * list cond) :=
   match l with
